@@ -295,8 +295,8 @@ theorem solenoidMap_symplectic (L k mx my E m : ℝ) : Symp6 (block6 (solenoidMa
 
 /-! ## undulator, markers -/
 
-theorem undulator_symplectic (L E m : ℝ) : Symp6 (block6 (undulatorMapPinned L E m)) := driftLike_symplectic _ _
-theorem undulator_affine (L E m : ℝ) : (undulatorMapPinned L E m).Affine := driftLike_affine _ _
+theorem undulator_symplectic (L E m : ℝ) : Symp6 (block6 (undulatorMap L E m)) := driftLike_symplectic _ _
+theorem undulator_affine (L E m : ℝ) : (undulatorMap L E m).Affine := driftLike_affine _ _
 theorem identMap_symplectic : Symp6 (block6 (identMap : Mat7 ℝ)) := by
   have : block6 (identMap : Mat7 ℝ) = 1 := by
     ext i j
